@@ -23,7 +23,7 @@ func init() {
 			"expiry from Walk().ExpireAt() is checked against [t0+T-|T|J/2-eps, t1+T+|T|J/2+eps] with wall-clock brackets t0/t1 around the Write; reads before/after expiry checked; " +
 			"per batch a distribution block (2000 writes each for J=1.0 and J=default) must populate both halves and both outer deciles of the jitter interval; " +
 			"distinct_nontrivial = distinct (backend, config class, ctx class, jitter class, magnitude decade) cells with a finite effective TTL",
-		Required: []string{"restored.checked", "trait_ttl.checked", "writes", "bounds.checked", "unlimited.checked", "read.hit.checked", "read.expired.checked", "dist.blocks"},
+		Required: []string{"restored.checked", "trait_ttl.checked", "writes", "writes.store", "writes.overwrite", "bounds.checked", "unlimited.checked", "read.hit.checked", "read.expired.checked", "dist.blocks"},
 		Assumptions: []string{
 			"wall clock (time.Now().UnixNano) is not stepped backwards/forwards during a run",
 			"eps = 2ns + |T|*2^-52 covers float64 rounding of the jitter product",
@@ -106,7 +106,11 @@ func c10Case(b *Batch, idx int) {
 		ctxTTL = -randDuration(rng)
 		ctx, ctxClass = cache.WithTTL(bg, ctxTTL, false), "neg"
 	}
-	be := newBackend(kind, cache.Config{TimeToLive: cfgTTL, ExpirationJitter: jit})
+	strat := cache.EvictionStrategy(rng.Intn(3))
+	mkCfg := func() cache.Config {
+		return cache.Config{TimeToLive: cfgTTL, ExpirationJitter: jit, EvictionStrategy: strat}
+	}
+	be := newBackend(kind, mkCfg())
 	// The exported Trait computes the TTL every backend applies: observe it directly (no clock bracket needed).
 	if ctxTTL != 0 || cfgTTL != cache.UnlimitedTTL {
 		T := ctxTTL
@@ -134,12 +138,41 @@ func c10Case(b *Batch, idx int) {
 	key := []byte(fmt.Sprintf("k%d", idx))
 	val := fmt.Sprintf("v%d", idx)
 
+	// The measured write may be an overwrite of an entry with a very different expiry, and may go through Store
+	// (context-free entry point: effective TTL is the configured one).
+	prior := "none"
+	switch rng.Intn(6) {
+	case 0:
+		prior = "expired"
+		be.Write(cache.WithTTL(bg, -randDuration(rng), false), key, "old")
+	case 1:
+		prior = "longer"
+		be.Write(cache.WithTTL(bg, 1000*time.Hour+randDuration(rng), false), key, "old")
+	case 2:
+		prior = "config"
+		be.Write(bg, key, "old")
+	}
+	viaStore := be.HasLoadStore() && rng.Intn(4) == 0
+	if viaStore {
+		ctx, ctxClass, ctxTTL = bg, "store", 0
+	}
+	var err error
 	t0 := time.Now().UnixNano()
-	err := be.Write(ctx, key, val)
+	if viaStore {
+		be.Store(key, val)
+	} else {
+		err = be.Write(ctx, key, val)
+	}
 	t1 := time.Now().UnixNano()
 	b.R.Eval()
 	b.R.Count("writes", 1)
-	desc := map[string]interface{}{"backend": kind, "cfgTTL": cfgTTL.String(), "ctxTTL": ctxTTL.String(), "ctxClass": ctxClass, "jitter": jit, "t0": t0, "t1": t1}
+	if viaStore {
+		b.R.Count("writes.store", 1)
+	}
+	if prior != "none" {
+		b.R.Count("writes.overwrite", 1)
+	}
+	desc := map[string]interface{}{"backend": kind, "cfgTTL": cfgTTL.String(), "ctxTTL": ctxTTL.String(), "ctxClass": ctxClass, "jitter": jit, "t0": t0, "t1": t1, "strategy": int(strat), "prior": prior, "store": viaStore}
 	fail := func(what, msg string) {
 		b.R.Violate(b, idx, "C10:"+kind+":"+what, fmt.Sprintf("%s: %s %v", what, msg, desc), desc)
 	}
@@ -181,6 +214,12 @@ func c10Case(b *Batch, idx int) {
 		if err != nil || v != val {
 			fail("unlimited-read", fmt.Sprintf("never-expiring entry read (%v,%v)", v, err))
 		}
+		if be.HasLoadStore() {
+			if lv, ok := be.Load(key); !ok || lv != val {
+				fail("unlimited-load", fmt.Sprintf("never-expiring entry Load (%v,%v)", lv, ok))
+			}
+		}
+		b.R.Nontrivial(fmt.Sprintf("%s/unlimited/%s/%s/s%d/%s", kind, ctxClass, jitClass, strat, prior))
 		return
 	}
 	absT := math.Abs(float64(T))
@@ -203,7 +242,7 @@ func c10Case(b *Batch, idx int) {
 	}
 	b.R.Count("bounds.checked", 1)
 	dec := int(math.Log10(absT + 1))
-	b.R.Nontrivial(fmt.Sprintf("%s/%s/%s/%s/1e%d", kind, cfgClass, ctxClass, jitClass, dec))
+	b.R.Nontrivial(fmt.Sprintf("%s/%s/%s/%s/1e%d/s%d/%s", kind, cfgClass, ctxClass, jitClass, dec, strat, prior))
 	if idx == 0 {
 		b.R.Sample(desc)
 	}
@@ -211,7 +250,7 @@ func c10Case(b *Batch, idx int) {
 	if idx%8 == 0 {
 		var buf bytes.Buffer
 		if _, err := be.Dump(&buf); err == nil {
-			be2 := newBackend(kind, cache.Config{TimeToLive: cfgTTL, ExpirationJitter: jit})
+			be2 := newBackend(kind, mkCfg())
 			if _, err := be2.Restore(&buf); err == nil {
 				b.R.Count("restored.checked", 1)
 				tb2 := time.Now().UnixNano()
